@@ -136,3 +136,27 @@ func insideLoopBody(b *ssa.BasicBlock) bool {
 	}
 	return false
 }
+
+// naturalLoop: the blocks of the natural loop of header h (h, and every block that reaches a latch of h
+// without passing through h).
+func naturalLoop(h *ssa.BasicBlock) map[*ssa.BasicBlock]bool {
+	in := map[*ssa.BasicBlock]bool{h: true}
+	var stack []*ssa.BasicBlock
+	for _, p := range h.Preds {
+		if h.Dominates(p) && !in[p] {
+			in[p] = true
+			stack = append(stack, p)
+		}
+	}
+	for len(stack) > 0 {
+		b := stack[len(stack)-1]
+		stack = stack[:len(stack)-1]
+		for _, p := range b.Preds {
+			if !in[p] && h.Dominates(p) {
+				in[p] = true
+				stack = append(stack, p)
+			}
+		}
+	}
+	return in
+}
